@@ -23,8 +23,9 @@ THEOREMS = [
     "C05_map_means_monotone_iter",
     "C05_map_machine_starts_from_prior",
     "C05_map_init_old_order_refuted",
+    "C05_mstep_relabel_equivariant",
 ]
-CORR_OPS = ["gmm_mstep_map:weights", "gmm_mstep_map:means", "gmm_mstep_map:variances", "gmm_mstep_map:fit2"]
+CORR_OPS = ["gmm_mstep_map:weights", "gmm_mstep_map:means", "gmm_mstep_map:variances", "gmm_mstep_map:relabel", "gmm_mstep_map:fit2"]
 RULE = ("prior model x adaptation statistics (real data or synthetic, with starved components n_c = 0 and 0 < n_c < thr) x relevance "
         "log-uniform [1e-6,1e6] or fixed ratio in [0,1] incl. 0 and 1 x 8 switch combinations; distinct = hash of inputs; non-trivial = "
         ">= 2 components and at least one switch on")
@@ -128,6 +129,18 @@ def correspondence(ctx):
         st = get_stats(sc, g)
         lines.append(line_for(sc, cur, st))
         res = core.impl(lambda: pget(gmod.m_step([st], g)[0]))
+        if not isinstance(res, core.ImplError):
+            # C05_mstep_relabel_equivariant on the code: prior, current model and statistics with the components in reverse order
+            def reversed_run():
+                rv = lambda a: np.asarray(a)[::-1].copy()
+                sc2 = dict(sc, w=rv(sc["w"]), m=rv(sc["m"]), v=rv(sc["v"]), cur={k: rv(cur[k]) for k in ("w", "m", "v")})
+                _, g2 = mk_map(sc2, max_fitting_steps=1, convergence_threshold=None)
+                st2 = gen.mk_stats(sc["C"], sc["D"], rv(st.n), rv(st.sum_px), rv(st.sum_pxx), int(st.t), float(st.log_likelihood))
+                return {k: v_[::-1] for k, v_ in pget(gmod.m_step([st2], g2)[0]).items()}
+            res2 = core.impl(reversed_run)
+            if isinstance(res2, core.ImplError) or not all(vclose(res2[k], res[k]) for k in ("w", "m", "v")):
+                bad.append({"op": "gmm_mstep_map:relabel", "input": {**{k: sc[k] for k in ("w", "m", "v", "um", "uv", "uw", "reynolds", "r", "alpha", "thr", "cur", "late", "int_prior", "sw_kind", "direct") if k in sc}, "stats": gen.stats_impl(st)},
+                            "impl": res, "impl_reversed": repr(res2) if isinstance(res2, core.ImplError) else res2})
         meta.append((sc, st, res))
     outs = core.drive(lines)
     for (sc, st, res), o in zip(meta, outs):
